@@ -122,6 +122,7 @@ type cgen struct {
 	memo map[string]string
 	feat map[string]int
 	dep  int
+	car  *carGen // carrier stream (carrier.go): %S / %L / %O are filled with carrier expressions
 }
 
 func isIdent(s string) bool {
@@ -235,6 +236,9 @@ func (c *cgen) pick(xs []string, fallback string) string {
 }
 
 func (c *cgen) hole(kind byte) string {
+	if c.car != nil && (kind == 'S' || kind == 'L' || kind == 'O') && c.r.Chance(0.85) {
+		return c.car.hole(kind)
+	}
 	c.dep++
 	defer func() { c.dep-- }()
 	deep := c.dep > 3
